@@ -502,7 +502,14 @@ def run(ctx):
         d[k] = d.get(k, 0) + n
 
     def take(stream, tag, params, sample=False):
-        md = MAKERS[stream](params, ctx.workdir)
+        try:
+            md = MAKERS[stream](params, ctx.workdir)
+        except BaseException as e:  # noqa   an exception escaping the implementation (also one left pending by a C extension and surfacing later as SystemError)
+            if isinstance(e, KeyboardInterrupt):
+                raise
+            import traceback
+            md = Made({'parameters': {k: params.get(k) for k in PARAM_KEYS[stream]}, 'stream': stream})
+            md.fail('%s case %s: the implementation raised %s: %s' % (stream, tag, type(e).__name__, str(e)[:200]), '%s:unexpected-exception' % stream, traceback=traceback.format_exc()[-1500:])
         bump(dist['params_by_stream'], stream)
         for why in md.skips:
             bump(dist['skipped'], '%s: %s' % (stream, why))
